@@ -311,3 +311,92 @@ def lock_discipline(ctx: Ctx, rule: str) -> None:
         withs = [s for s in ast.walk(g) if isinstance(s, ast.With)]
         ok = len(withs) == 1 and norm_stmt(withs[0].items[0].context_expr) == f"args[0].{attr}" and any(isinstance(r, ast.Return) and isinstance(r.value, ast.Call) and dotted(r.value.func) == "wrapped" for r in ast.walk(withs[0]))
         ctx.ob(rule + "-decorator", cname("utils/locks.py", None, name), ok, f"@{name} must run the wrapped method inside `with args[0].{attr}`", node=g)
+
+
+# ---------------------------------------------------------------------------
+# unfolded value of an expression, optionally under facts (conditions fixed to a constant)
+
+_SYM_CACHE: dict = {}
+
+
+def unfolded(func: ast.AST, node: ast.AST, facts: dict[str, bool] | None = None, get=None) -> list[ast.AST] | None:
+    """Alternatives for the value of ``node`` (an expression inside ``func``) with the locals it reads unfolded.
+
+    With ``facts`` the function is first specialised (tests whose text is a key are fixed), so a local re-assigned
+    under a condition unfolds to the right alternative.  None when the node is unreachable in the specialised function.
+    ``node`` may be a statement together with ``get`` (statement -> expression), which is the robust way to name an
+    expression that the specialisation may fold (``a if c else b`` under a fact about ``c``).
+    """
+    from gv.dataflow import SymValues
+    from gv.shapes import specialise
+
+    key = (id(func), tuple(sorted((facts or {}).items())))
+    if key not in _SYM_CACHE:
+        g = specialise(func, facts) if facts else func
+        _SYM_CACHE[key] = (func, g, SymValues(g))  # func kept alive so that id() stays unique
+    _, g, sv = _SYM_CACHE[key]
+    if g is func:
+        target = node
+    else:
+        loc = (getattr(node, "lineno", None), getattr(node, "col_offset", None), getattr(node, "end_lineno", None), getattr(node, "end_col_offset", None))
+        cands = [n for n in ast.walk(g) if isinstance(n, (ast.expr, ast.stmt)) and (getattr(n, "lineno", None), getattr(n, "col_offset", None), getattr(n, "end_lineno", None), getattr(n, "end_col_offset", None)) == loc]
+        same = [n for n in cands if type(n) is type(node)]
+        if not (same or cands):
+            # folded away (e.g. the taken branch of a conditional expression): look for the enclosing located node
+            return None
+        target = (same or cands)[0]
+    if not sv.cfg.has(target):
+        return None
+    tn = sv.cfg.node_of(target)
+    if tn != sv.cfg.entry and not sv.cfg.reachable(sv.cfg.entry, tn):
+        return None
+    if get is not None:
+        target = get(target)
+        if target is None:
+            return None
+    return sv.exprs(target)
+
+
+def expand_accessor(index, cls, call: ast.AST) -> ast.AST:
+    """``self.get_x(a)`` -> the expression ``get_x`` returns, when the method (resolved on ``cls``) is an accessor:
+    optional docstring, optional statements that only check (``self.__check...(..)`` / ``if ...: raise``), one
+    ``return <expr>``; parameters are replaced by the arguments.  Anything else is returned unchanged."""
+    import copy
+
+    if not (isinstance(call, ast.Call) and isinstance(call.func, ast.Attribute) and isinstance(call.func.value, ast.Name) and call.func.value.id == "self"):
+        return call
+    m = index.resolve_method(cls, call.func.attr)
+    if m is None:
+        return call
+    fn = m[1] if isinstance(m, tuple) else m
+    body = [b for b in fn.body if not (isinstance(b, ast.Expr) and isinstance(b.value, ast.Constant))]
+    checks, last = body[:-1], body[-1] if body else None
+    if not isinstance(last, ast.Return) or last.value is None:
+        return call
+    for c in checks:
+        is_check_call = isinstance(c, ast.Expr) and isinstance(c.value, ast.Call) and "check" in (last_attr(c.value) or "")
+        is_guard = isinstance(c, ast.If) and not c.orelse and all(isinstance(x, ast.Raise) for x in c.body)
+        if not (is_check_call or is_guard):
+            return call
+    params = [a.arg for a in fn.args.args][1:]
+    if any(isinstance(a, ast.Starred) for a in call.args) or len(call.args) > len(params) or fn.args.vararg or fn.args.kwarg:
+        return call
+    bind = dict(zip(params, call.args))
+    for k in call.keywords:
+        if k.arg is None or k.arg not in params:
+            return call
+        bind[k.arg] = k.value
+    defaults = dict(zip(params[len(params) - len(fn.args.defaults):], fn.args.defaults))
+    for p_ in params:
+        if p_ not in bind:
+            if p_ not in defaults:
+                return call
+            bind[p_] = defaults[p_]
+
+    class R(ast.NodeTransformer):
+        def visit_Name(self, n):  # noqa: N802
+            if isinstance(n.ctx, ast.Load) and n.id in bind:
+                return copy.deepcopy(bind[n.id])
+            return n
+
+    return ast.fix_missing_locations(ast.copy_location(R().visit(copy.deepcopy(last.value)), call))
